@@ -190,8 +190,19 @@ class OptComparationFunctions:
         """
         mgr = self.environment.formula_manager
         cast_bv = None
-        if goal.get_logic() is BV:
-            otype = self.environment.stc.get_type(goal.term())
+        # The comparison operators depend on the type of the objective
+        # term, not on the theories occurring inside it (e.g., in the
+        # soft clauses of a MaxSMT goal)
+        otype = self.environment.stc.get_type(goal.term())
+        if otype.is_bv_type():
+            goal_logic = BV
+        elif otype.is_int_type():
+            goal_logic = LIA
+        elif otype.is_real_type():
+            goal_logic = LRA
+        else:
+            goal_logic = goal.get_logic()
+        if goal_logic is BV:
             assert isinstance(otype, _BVType), "Error, BV goal logic when goal term is not of BV Type"
             if goal.signed:
                 cast_bv = lambda x: mgr.SBV(x, otype.width)
@@ -231,7 +242,7 @@ class OptComparationFunctions:
             },
         }
         options[QF_LIRA] = options[LRA]
-        return options[goal.get_logic()][goal.opt()][goal.signed]
+        return options[goal_logic][goal.opt()][goal.signed]
 
 
 class OptSearchInterval(OptComparationFunctions):
